@@ -11,9 +11,9 @@ import Ucfg.Lemmas.UnpackValid
   where the code checks (on the pointee) also passes where the result is inspected (on the
   pointer).  These local facts are composed into one statement about `unpack` twice: `unpack_flat_valid` (structs of
   primitive fields) and, by one induction over the fuel carrying a claim for each function of the model,
-  `unpack_plain_valid` / `unpack_plain_list_valid` (structs, pointers, slices and fixed-size arrays nested to any
-  depth).  PARTIAL: maps, interface{} and inline fields are outside the universe of the lifted theorem; for them the
-  correspondence check applies `recValidate` to every successful result instead.
+  `unpack_plain_valid` / `unpack_plain_list_valid` / `unpack_plain_map_valid` (structs, pointers, slices, arrays and maps nested to any
+  depth, maps included).  PARTIAL: interface{}, inline fields, regexp and Config targets are outside the universe of the
+  lifted theorem; for them the correspondence check applies `recValidate` to every successful result instead.
 -/
 namespace Ucfg.C04
 open Ucfg Outcome
@@ -327,9 +327,11 @@ end Ucfg.C04
 /-! ### the nested lift
 
 The same statement for target types nested to any depth: structs (without inline fields) of primitives, pointers, slices,
-fixed-size arrays and further structs.  One induction over the fuel carries six claims, one per function of the model
-(`mergeValue`, `reifyValue`, `reifyStructT`, `getField'`, `sliceMerge`, `doArray`); each step uses only the claims one
-level below.  The attempt to prove the claim for `reifyValue` at array types is what exposed defect D43 (a null setting
+fixed-size arrays, maps and further structs.  One induction over the fuel carries eight claims, one per function of the
+model (`mergeValue`, `reifyValue`, `reifyStructT`, `getField'`, `sliceMerge`, `doArray`, `reifyMapT`, `mapEntries`); each
+step uses only the claims one level below.  Map values are sorted association lists: `mapEntries` keeps them sorted
+(`gmapSet_sorted`) and every entry of its result is either an entry the configuration does not mention (validated
+explicitly afterwards) or a value the unpacker produced.  The attempt to prove the claim for `reifyValue` at array types is what exposed defect D43 (a null setting
 creating a fixed-size array returned the zero array unvalidated); the model now follows the repaired code. -/
 namespace Ucfg.C04
 open Ucfg Outcome
@@ -344,11 +346,21 @@ def Good (std : Stdlib) (fo : FOpts) (ty : Ty) (v : Val) (r : GoVal) : Prop :=
   fits ty r = true ∧ (∀ ov, recValidate std ov ty [] r = none) ∧
   ((v.isNilPrim = false ∨ ty.isStrct = true) → runValidators std fo.validators r = none)
 
+def _root_.Ucfg.Ty.isMap : Ty → Bool
+  | .map _ => true
+  | _ => false
+
+/-- a value that has to be created (`reifyValue`): the same, except that a fresh map is built without the slot's
+validators (reifyValue passes none to reifyMap; a pointer to it passes them whatever the map holds) -/
+def GoodR (std : Stdlib) (fo : FOpts) (ty : Ty) (v : Val) (r : GoVal) : Prop :=
+  fits ty r = true ∧ (∀ ov, recValidate std ov ty [] r = none) ∧
+  ((v.isNilPrim = false ∨ ty.isStrct = true) → ty.isMap = false → runValidators std fo.validators r = none)
+
 structure Claims (std : Stdlib) (n : Nat) : Prop where
   merge : ∀ (fo : FOpts) (ty : Ty) (old : GoVal) (v : Val) (r : GoVal), ty.plain = true → fits ty old = true →
     mergeValue std n fo ty old v = .ok r → Good std fo ty v r
   reify : ∀ (fo : FOpts) (ty : Ty) (v : Val) (r : GoVal), ty.plain = true →
-    reifyValue std n fo ty v = .ok r → Good std fo ty v r
+    reifyValue std n fo ty v = .ok r → GoodR std fo ty v r
   strct : ∀ (o : Opts) (fs : List (String × String × String × Ty)) (xs : List GoVal) (cfg : Val) (xs' : List GoVal),
     plainFields fs = true → fitsFields fs xs = true →
     reifyStructT std n o fs xs cfg = .ok xs' → fitsFields fs xs' = true ∧ ∀ ov, recValidateFields std ov fs xs' = none
@@ -360,6 +372,13 @@ structure Claims (std : Stdlib) (n : Nat) : Prop where
   arr : ∀ (fo : FOpts) (t : Ty) (start : Nat) (xs : List GoVal) (vs : List Val) (xs' : List GoVal), t.plain = true →
     fitsAll t xs = true → doArray std n fo t start xs vs = .ok xs' →
     fitsAll t xs' = true ∧ ∀ ov, recValidateList std ov t xs' = none
+  mapc : ∀ (o : Opts) (vs : List VTag) (t : Ty) (m0 : Option (List (String × GoVal))) (sub : Val) (r : GoVal), t.plain = true →
+    (∀ m, m0 = some m → fitsVals t m = true ∧ keysSorted m = true) → reifyMapT std n o vs t m0 sub = .ok r →
+    fits (.map t) r = true ∧ (∀ ov, recValidate std ov (.map t) [] r = none) ∧ runValidators std vs r = none
+  ents : ∀ (o : Opts) (t : Ty) (m : List (String × GoVal)) (d : List (String × Val)) (m' : List (String × GoVal)),
+    t.plain = true → fitsVals t m = true → keysSorted m = true → mapEntries std n o t m d = .ok m' →
+    fitsVals t m' = true ∧ keysSorted m' = true ∧
+    ∀ e ∈ m', (e ∈ m ∧ d.any (fun kv => kv.1 == e.1) = false) ∨ (∀ ov, recValidate std ov t [] e.2 = none)
 
 /-- a plain type is not interface{}: the "invalid reflect.Value" escape does not apply -/
 theorem keep_of_plain (t : Ty) (x nx : GoVal) : t.plain = true →
@@ -510,9 +529,9 @@ theorem getf_step (std : Stdlib) (n : Nat) (IH : Claims std n) :
       | ptr t' => exact keep hcore
       | slice t' => exact keep hcore
       | array k t' => exact keep hcore
+      | map t' => exact keep hcore
       | regexp => simp [Ty.plain] at ht
       | iface => simp [Ty.plain] at ht
-      | map _ => simp [Ty.plain] at ht
       | config => simp [Ty.plain] at ht
       | unsupported => simp [Ty.plain] at ht
       | badmap => simp [Ty.plain] at ht
@@ -651,30 +670,80 @@ theorem good_prim (std : Stdlib) (fo : FOpts) (k : Kind) (v : Val) (r : GoVal)
   · exact reifyPrimitiveT_prim_validated std fo k v r hv h
   · simp [Ty.isStrct] at hv
 
-theorem good_ptr (std : Stdlib) (fo : FOpts) (t : Ty) (v : Val) (x : GoVal) (hg : Good std fo t v x) :
+/-- validators look through a pointer only for numbers: a pointer whose chain does not end in a number passes -/
+theorem runValidators_ptr_nonnum (std : Stdlib) (vs : List VTag) (x : GoVal) (hx : isZeroNum x.chase = none) :
+    runValidators std vs (.ptr (some x)) = none := by
+  unfold runValidators
+  induction vs with
+  | nil => rfl
+  | cons t r ih =>
+    simp only [List.findSome?]
+    have : runValidator std t (.ptr (some x)) = none := by
+      unfold runValidator
+      split
+      · simp [validateNonZero, GoVal.isNilIface, GoVal.chase, hx, validateNonEmpty]
+      · split
+        · simp [validatePositive]
+        · split
+          · simp [validateBound]
+          · split
+            · simp [validateBound]
+            · split
+              · simp [validateRequired, GoVal.isNilIface, isZeroNum, validateNonEmpty]
+              · rfl
+    rw [this]
+    exact ih
+
+theorem good_ptr (std : Stdlib) (fo : FOpts) (t : Ty) (v : Val) (x : GoVal) (hg : GoodR std fo t v x) :
     Good std fo (.ptr t) v (.ptr (some x)) := by
   refine ⟨by simpa [fits] using hg.1, fun ov => ?_, ?_⟩
   · rw [recValidate_ptr_some]; exact hg.2.1 ov
   · intro hv
     rcases hv with hv | hv
-    · exact runValidators_ptr_some std _ x (hg.2.2 (Or.inl hv))
+    · by_cases hm : t.isMap = true
+      · -- a pointer to a map: nothing to look at through the pointer
+        apply runValidators_ptr_nonnum
+        have hf := hg.1
+        cases t with
+        | map t' =>
+          cases x with
+          | map m => cases m <;> simp [GoVal.chase, isZeroNum]
+          | _ => simp [fits] at hf
+        | _ => simp [Ty.isMap] at hm
+      · exact runValidators_ptr_some std _ x (hg.2.2 (Or.inl hv) (by simpa using hm))
     · simp [Ty.isStrct] at hv
+
+theorem goodR_of_good (std : Stdlib) (fo : FOpts) (t : Ty) (v : Val) (x : GoVal) (hg : Good std fo t v x) :
+    GoodR std fo t v x := ⟨hg.1, hg.2.1, fun hv _ => hg.2.2 hv⟩
+
+theorem good_of_goodR (std : Stdlib) (fo : FOpts) (t : Ty) (v : Val) (x : GoVal) (hm : t.isMap = false)
+    (hg : GoodR std fo t v x) : Good std fo t v x := ⟨hg.1, hg.2.1, fun hv => hg.2.2 hv hm⟩
 
 theorem reify_step (std : Stdlib) (n : Nat) (IH : Claims std n) :
     ∀ (fo : FOpts) (ty : Ty) (v : Val) (r : GoVal), ty.plain = true →
-    reifyValue std (n+1) fo ty v = .ok r → Good std fo ty v r := by
+    reifyValue std (n+1) fo ty v = .ok r → GoodR std fo ty v r := by
   intro fo ty v r ht h
   cases ty with
   | prim k =>
     simp only [reifyValue] at h
-    exact good_prim std fo k v r h
+    exact goodR_of_good _ _ _ _ _ (good_prim std fo k v r h)
   | ptr t =>
     simp only [Ty.plain] at ht
     simp only [reifyValue] at h
     obtain ⟨x, hx, hr⟩ := bind_eq_ok h
     simp only [Outcome.ok.injEq] at hr
     subst hr
-    exact good_ptr std fo t v x (IH.reify fo t v x ht hx)
+    exact goodR_of_good _ _ _ _ _ (good_ptr std fo t v x (IH.reify fo t v x ht hx))
+  | map t =>
+    simp only [Ty.plain] at ht
+    simp only [reifyValue] at h
+    cases hc : toCfg? v with
+    | none => rw [hc] at h; exact absurd h (raise_ne_ok _ r)
+    | some sub =>
+      rw [hc] at h
+      simp only at h
+      obtain ⟨h0, h1, _⟩ := IH.mapc fo.opts [] t none sub r ht (by intro m hm; cases hm) h
+      exact ⟨h0, h1, fun _ hm => by simp [Ty.isMap] at hm⟩
   | strct fs =>
     simp only [Ty.plain] at ht
     simp only [reifyValue] at h
@@ -687,14 +756,14 @@ theorem reify_step (std : Stdlib) (n : Nat) (IH : Claims std n) :
       simp only [Outcome.ok.injEq] at hr
       subst hr
       obtain ⟨hf, hv⟩ := IH.strct fo.opts fs (zeroFields fs) sub xs ht (fitsFields_zero fs ht) hxs
-      refine ⟨by simpa [fits] using hf, fun ov => ?_, fun _ => runValidators_strct std _ xs⟩
+      refine ⟨by simpa [fits] using hf, fun ov => ?_, fun _ _ => runValidators_strct std _ xs⟩
       rw [recValidate_strct]
       exact hv ov
   | slice t =>
     simp only [Ty.plain] at ht
     simp only [reifyValue] at h
     obtain ⟨h0, h1, h2⟩ := IH.slice fo t none v r ht (by intro l hl; cases hl) h
-    exact ⟨h0, h1, fun _ => h2⟩
+    exact ⟨h0, h1, fun _ _ => h2⟩
   | array k t =>
     have ht' : t.plain = true := by simpa [Ty.plain] using ht
     simp only [reifyValue] at h
@@ -708,7 +777,7 @@ theorem reify_step (std : Stdlib) (n : Nat) (IH : Claims std n) :
         simp only [Outcome.ok.injEq] at h
         subst h
         refine ⟨fits_zeroOf _ ht, fun ov => by rw [recValidate_opts std ov fo.opts]; exact hc, ?_⟩
-        intro hh
+        intro hh _
         rcases hh with hh | hh
         · rw [hv] at hh; cases hh
         · simp [Ty.isStrct] at hh
@@ -717,7 +786,6 @@ theorem reify_step (std : Stdlib) (n : Nat) (IH : Claims std n) :
       exact absurd h (raise_ne_ok _ r)
   | regexp => simp [Ty.plain] at ht
   | iface => simp [Ty.plain] at ht
-  | map _ => simp [Ty.plain] at ht
   | config => simp [Ty.plain] at ht
   | unsupported => simp [Ty.plain] at ht
   | badmap => simp [Ty.plain] at ht
@@ -737,14 +805,31 @@ theorem merge_step (std : Stdlib) (n : Nat) (IH : Claims std n) :
       cases p with
       | none =>
         simp only [mergeValue] at h
-        exact IH.reify fo (.ptr t) v r (by simpa [Ty.plain] using ht) h
+        exact good_of_goodR _ _ _ _ _ rfl (IH.reify fo (.ptr t) v r (by simpa [Ty.plain] using ht) h)
       | some x =>
         simp only [fits] at hfit
         simp only [mergeValue] at h
         obtain ⟨x', hx', hr⟩ := bind_eq_ok h
         simp only [Outcome.ok.injEq] at hr
         subst hr
-        exact good_ptr std fo t v x' (IH.merge fo t x v x' ht hfit hx')
+        exact good_ptr std fo t v x' (goodR_of_good _ _ _ _ _ (IH.merge fo t x v x' ht hfit hx'))
+    | _ => simp [fits] at hfit
+  | map t =>
+    simp only [Ty.plain] at ht
+    cases old with
+    | map m =>
+      simp only [mergeValue] at h
+      cases hc : toCfg? v with
+      | none => rw [hc] at h; exact absurd h (raise_ne_ok _ r)
+      | some sub =>
+        rw [hc] at h
+        simp only at h
+        have hold : ∀ m', m = some m' → fitsVals t m' = true ∧ keysSorted m' = true := by
+          intro m' hm
+          subst hm
+          simpa [fits] using hfit
+        obtain ⟨h0, h1, h2⟩ := IH.mapc fo.opts fo.validators t m sub r ht hold h
+        exact ⟨h0, h1, fun _ => h2⟩
     | _ => simp [fits] at hfit
   | strct fs =>
     simp only [Ty.plain] at ht
@@ -797,29 +882,138 @@ theorem merge_step (std : Stdlib) (n : Nat) (IH : Claims std n) :
     | _ => simp [fits] at hfit
   | regexp => simp [Ty.plain] at ht
   | iface => simp [Ty.plain] at ht
-  | map _ => simp [Ty.plain] at ht
   | config => simp [Ty.plain] at ht
   | unsupported => simp [Ty.plain] at ht
   | badmap => simp [Ty.plain] at ht
 
-/-- the six claims hold at every fuel -/
+theorem ents_step (std : Stdlib) (n : Nat) (IH : Claims std n) :
+    ∀ (o : Opts) (t : Ty) (m : List (String × GoVal)) (d : List (String × Val)) (m' : List (String × GoVal)),
+    t.plain = true → fitsVals t m = true → keysSorted m = true → mapEntries std (n+1) o t m d = .ok m' →
+    fitsVals t m' = true ∧ keysSorted m' = true ∧
+    ∀ e ∈ m', (e ∈ m ∧ d.any (fun kv => kv.1 == e.1) = false) ∨ (∀ ov, recValidate std ov t [] e.2 = none) := by
+  intro o t m d m' ht hfit hs h
+  cases d with
+  | nil =>
+    simp only [mapEntries, Outcome.ok.injEq] at h
+    subst h
+    exact ⟨hfit, hs, fun e he => Or.inl ⟨he, by simp⟩⟩
+  | cons kv r =>
+    obtain ⟨k, v⟩ := kv
+    simp only [mapEntries] at h
+    obtain ⟨nv, hnv, h2⟩ := bind_eq_ok h
+    -- the new value of the entry: well shaped and valid
+    have hgood : fits t nv = true ∧ ∀ ov, recValidate std ov t [] nv = none := by
+      cases hg : gmapGet m k with
+      | none =>
+        rw [hg] at hnv
+        have := IH.reify { opts := o } t v nv ht hnv
+        exact ⟨this.1, this.2.1⟩
+      | some old =>
+        rw [hg] at hnv
+        obtain ⟨e, he, heq⟩ := gmapGet_mem m k old hg
+        have hfo : fits t old = true := by rw [← heq]; exact (fitsVals_all t m).mp hfit e he
+        have := IH.merge { opts := o } t old v nv ht hfo hnv
+        exact ⟨this.1, this.2.1⟩
+    -- it is stored (a plain type never yields the invalid reflect.Value)
+    have h2' : mapEntries std n o t (gmapSet m k nv) r = .ok m' := by
+      split at h2
+      · have := hgood.1
+        rw [fits_iface_false] at this
+        cases this
+      · exact h2
+    clear h2
+    have h2 := h2'
+    have hfit1 : fitsVals t (gmapSet m k nv) = true := by
+      rw [fitsVals_all]
+      intro e he
+      rcases mem_gmapSet m k nv hs e he with h | ⟨h, _⟩
+      · rw [h]; exact hgood.1
+      · exact (fitsVals_all t m).mp hfit e h
+    obtain ⟨hf', hs', hall⟩ := IH.ents o t (gmapSet m k nv) r m' ht hfit1 (gmapSet_sorted m k nv hs) h2
+    refine ⟨hf', hs', ?_⟩
+    intro e he
+    rcases hall e he with ⟨hin, hnot⟩ | hval
+    · rcases mem_gmapSet m k nv hs e hin with h | ⟨h, hne⟩
+      · exact Or.inr (by rw [h]; exact hgood.2)
+      · refine Or.inl ⟨h, ?_⟩
+        simp only [List.any_cons, Bool.or_eq_false_iff]
+        refine ⟨?_, hnot⟩
+        simp only [beq_eq_false_iff_ne, ne_eq]
+        exact fun hk => hne hk.symm
+    · exact Or.inr hval
+
+theorem mapc_step (std : Stdlib) (n : Nat) (IH : Claims std n) :
+    ∀ (o : Opts) (vs : List VTag) (t : Ty) (m0 : Option (List (String × GoVal))) (sub : Val) (r : GoVal), t.plain = true →
+    (∀ m, m0 = some m → fitsVals t m = true ∧ keysSorted m = true) → reifyMapT std (n+1) o vs t m0 sub = .ok r →
+    fits (.map t) r = true ∧ (∀ ov, recValidate std ov (.map t) [] r = none) ∧ runValidators std vs r = none := by
+  intro o vs t m0 sub r ht hold h
+  have hm : fitsVals t (m0.getD []) = true ∧ keysSorted (m0.getD []) = true := by
+    cases m0 with
+    | none => simp [fitsVals, keysSorted]
+    | some m => exact hold m rfl
+  simp only [reifyMapT] at h
+  cases hd : sub.dict with
+  | nil =>
+    rw [hd] at h
+    simp only at h
+    cases hc : recValidate std o (.map t) vs (.map (some (m0.getD []))) with
+    | some e => rw [hc] at h; exact absurd h (raiseValidation_ne_ok e r)
+    | none =>
+      rw [hc] at h
+      simp only [Outcome.ok.injEq] at h
+      subst h
+      obtain ⟨h1, h2⟩ := (recValidate_split std o _ _ _).mp hc
+      refine ⟨by simp [fits, hm.1, hm.2], fun ov => ?_, h1⟩
+      rw [recValidate_opts std ov o]
+      exact h2
+  | cons kv dr =>
+    rw [hd] at h
+    simp only at h
+    obtain ⟨m', hents, h2⟩ := bind_eq_ok h
+    obtain ⟨hf', hs', hall⟩ := IH.ents o t (m0.getD []) (kv :: dr) m' ht hm.1 hm.2 hents
+    cases hc : recValidateMap std o t (m'.filter (fun x => !((kv :: dr).any (fun kv' => kv'.1 == x.1)))) with
+    | some e => rw [hc] at h2; exact absurd h2 (raiseValidation_ne_ok e r)
+    | none =>
+      rw [hc] at h2
+      simp only at h2
+      cases hv : runValidators std vs (.map (some m')) with
+      | some e => rw [hv] at h2; exact absurd h2 (raiseValidation_ne_ok e r)
+      | none =>
+        rw [hv] at h2
+        simp only [Outcome.ok.injEq] at h2
+        subst h2
+        refine ⟨by simp [fits, hf', hs'], fun ov => ?_, hv⟩
+        rw [recValidate_map, recValidateMap_all]
+        intro e he
+        rcases hall e he with ⟨_, hnot⟩ | hval
+        · -- an entry the configuration does not mention: validated explicitly
+          have hmem : e ∈ m'.filter (fun x => !((kv :: dr).any (fun kv' => kv'.1 == x.1))) := by
+            rw [List.mem_filter]
+            exact ⟨he, by rw [hnot]; rfl⟩
+          rw [recValidate_opts std ov o]
+          exact (recValidateMap_all std o t _).mp hc e hmem
+        · exact hval ov
+
+/-- the eight claims hold at every fuel -/
 theorem claims (std : Stdlib) : ∀ n, Claims std n := by
   intro n
   induction n with
   | zero =>
-    refine ⟨?_, ?_, ?_, ?_, ?_, ?_⟩
+    refine ⟨?_, ?_, ?_, ?_, ?_, ?_, ?_, ?_⟩
     · intro fo ty old v r _ _ h; simp [mergeValue] at h
     · intro fo ty v r _ h; simp [reifyValue] at h
     · intro o fs xs cfg xs' _ _ h; simp [reifyStructT] at h
     · intro fo t x cfg name r _ _ h; simp [getField'] at h
     · intro fo t old v r _ _ h; simp [sliceMerge] at h
     · intro fo t start xs vs xs' _ _ h; simp [doArray] at h
+    · intro o vs t m0 sub r _ _ h; simp [reifyMapT] at h
+    · intro o t m d m' _ _ _ h; simp [mapEntries] at h
   | succ k ih =>
     exact ⟨merge_step std k ih, reify_step std k ih, strct_step std k ih, getf_step std k ih, slice_step std k ih,
-      arr_step std k ih⟩
+      arr_step std k ih, mapc_step std k ih, ents_step std k ih⟩
 
-/-- **C04, nested.** For every struct type whose fields are primitives, pointers, slices, fixed-size arrays and further
-such structs, nested to any depth, with any tags (except `inline`), validators, pre-filled target and configuration:
+/-- **C04, nested.** For every struct type whose fields are primitives, pointers, slices, fixed-size arrays, maps and
+further such structs, nested to any depth, with any tags (except `inline`), validators, pre-filled target and configuration:
 when `Unpack` returns without error, the recursive validation of the populated target reports nothing. -/
 theorem unpack_plain_valid (std : Stdlib) (o : Opts) (fs : List (String × String × String × Ty)) (xs : List GoVal)
     (cfg : Val) (v : GoVal) (hpl : plainFields fs = true) (hfit : fitsFields fs xs = true)
@@ -844,6 +1038,20 @@ theorem unpack_plain_list_valid (std : Stdlib) (o : Opts) (ty : Ty) (old : GoVal
     rcases hty with ⟨t, rfl⟩ | ⟨k, t, rfl⟩ <;> (unfold unpack at h; exact h)
   exact ((claims std unpackFuel).merge { opts := o } ty old cfg v hpl hfit hm).2.1 ov
 
+/-- ... and for a map as the target itself -/
+theorem unpack_plain_map_valid (std : Stdlib) (o : Opts) (t : Ty) (m : Option (List (String × GoVal))) (cfg : Val) (v : GoVal)
+    (hpl : t.plain = true) (hfit : fits (.map t) (.map m) = true)
+    (h : unpack std o (.map t) (.map m) cfg = .ok v) :
+    ∀ ov, recValidate std ov (.map t) [] v = none := by
+  intro ov
+  unfold unpack at h
+  simp only at h
+  have hold : ∀ m', m = some m' → fitsVals t m' = true ∧ keysSorted m' = true := by
+    intro m' hm
+    subst hm
+    simpa [fits] using hfit
+  exact ((claims std unpackFuel).mapc o [] t m cfg v hpl hold h).2.1 ov
+
 /-- what Unpack leaves in the target still has the shape of the target's type -/
 theorem unpack_plain_fits (std : Stdlib) (o : Opts) (fs : List (String × String × String × Ty)) (xs : List GoVal)
     (cfg : Val) (v : GoVal) (hpl : plainFields fs = true) (hfit : fitsFields fs xs = true)
@@ -860,7 +1068,8 @@ its zero value is well shaped (the correspondence run evaluates `unpack` on thou
 refused alike) -/
 def exNested : List (String × String × String × Ty) :=
   [("Hosts", "hosts", "required", .slice (.strct [("Name", "name", "required", .prim .string), ("Port", "port", "min=1", .prim (.int 64))])),
-   ("P", "p", "", .ptr (.array 1 (.strct [("N", "n", "nonzero", .prim (.int 64))])))]
+   ("P", "p", "", .ptr (.array 1 (.strct [("N", "n", "nonzero", .prim (.int 64))]))),
+   ("M", "m", "nonzero", .map (.ptr (.strct [("A", "a", "max=5", .prim (.uint 8))])))]
 example : plainFields exNested = true := by decide
 example : fitsFields exNested (zeroFields exNested) = true := by decide
 
